@@ -17,7 +17,8 @@ ASSUMPTIONS = ["closed-form comparison tolerance 1e-12 relative", "PM drives: fl
 def s_field(draw, nmax=512):
     n = draw(st.one_of(st.integers(1, 64), st.integers(1, nmax), st.sampled_from([1, 2, 3, 255, 256, 512])))
     x = draw(s_signal(n=n, cls="O", dts=("c", "f", "c"), fams=["gauss", "unif", "smallint", "const"]))
-    x["noise_kind"] = draw(st.sampled_from(["none", "random", "random", "zero-sum", "all-zero"]))
+    x["noise_kind"] = draw(st.sampled_from(["none", "random", "random", "zero-sum", "all-zero", "tiny"]))
+    x["fscale"] = draw(st.sampled_from([1.0, 1.0, 1.0, 1e-6, 1e-10]))
     x["nseed"] = draw(st.integers(0, 2 ** 31 - 1))
     return x
 
@@ -32,6 +33,8 @@ def build_field(spec):
     k = spec["noise_kind"]
     if k == "none":
         nz = None
+    elif k == "tiny":          # a genuine noise component far below any "is it zero?" tolerance
+        nz = 1e-10 * (rs.standard_normal(shape) + 1j * rs.standard_normal(shape))
     elif k == "random":
         nz = 0.3 * (rs.standard_normal(shape) + 1j * rs.standard_normal(shape))
     elif k == "all-zero":
@@ -45,6 +48,10 @@ def build_field(spec):
             if flat.size > 1:
                 flat[-1] = -1
     s = m.s.astype(complex) if nz is not None else m.s
+    fsc = spec.get("fscale", 1.0)
+    if fsc != 1.0:
+        s = s.astype(complex) * fsc
+        nz = None if nz is None else nz * fsc
     obj = optical_signal(s.copy(), None if nz is None else nz.copy(), n_pol=m.npol)
     m.s, m.n = s, nz
     return obj, m
@@ -70,6 +77,9 @@ def make_drive(d, n):
     u = rs.uniform(-d["amp"], d["amp"], L)
     if k == "full":
         u = np.full(L, u[0])
+    elif k == "ripple":       # an almost constant drive: pedestal plus a ripple of 1e-9..1e-4 V
+        u = np.full(L, u[0]) + 10 ** rs.uniform(-9, -4) * np.sin(2 * np.pi * rs.uniform(0.01, 0.4) * np.arange(L) + rs.uniform(0, 6))
+        k = "ndarray"
     if k == "list":
         return u.tolist(), u
     if k == "es":
@@ -79,7 +89,7 @@ def make_drive(d, n):
 
 @st.composite
 def s_mzm(draw):
-    return {"x": draw(s_field()), "u": draw(s_drive(["pyfloat", "pyint", "ndarray", "full", "es", "list"])),
+    return {"x": draw(s_field()), "u": draw(s_drive(["pyfloat", "pyint", "ndarray", "full", "es", "list", "ripple"])),
             "bias": draw(st.floats(-20, 20)), "Vpi": draw(st.floats(0.5, 20)), "loss": draw(st.one_of(st.just(0.0), st.floats(0, 20))),
             "ER": draw(st.one_of(st.floats(0, 60), st.sampled_from([0.0, 60.0, 26.0, 3.0]))), "pol": draw(st.sampled_from(["x", "y"]))}
 
@@ -116,11 +126,11 @@ def e_mzm(c):
         if want_n is not None:
             want_n = want_n.copy()
             want_n[off] = 0
-    scale = max(1.0, float(np.max(np.abs(m.s))))
+    scale = max(float(np.max(np.abs(m.s))), 1e-300)          # relative to the field, no absolute floor
     check(np.allclose(y.signal, want_s, rtol=1e-12, atol=1e-12 * scale), "mzm-signal!=closed-form", f"max err {np.max(np.abs(y.signal - want_s)):.3e}")
     check((y.noise is None) == (m.n is None), "noise-presence", f"input noise {c['x']['noise_kind']}, output noise {'None' if y.noise is None else 'present'}")
     if want_n is not None:
-        check(np.allclose(y.noise, want_n, rtol=1e-12, atol=1e-12), "mzm-noise!=closed-form", f"noise kind {c['x']['noise_kind']}")
+        check(np.allclose(y.noise, want_n, rtol=1e-12, atol=1e-12 * max(float(np.max(np.abs(m.n))), 1e-300)), "mzm-noise!=closed-form", f"noise kind {c['x']['noise_kind']}")
     if m.npol == 2:
         off = 1 if pol == "x" else 0
         check(not np.any(y.signal[off]) and (y.noise is None or not np.any(y.noise[off])), "unselected-polarisation-not-extinguished", pol)
@@ -176,7 +186,7 @@ def e_mzm_err(c):
 
 @st.composite
 def s_pm(draw):
-    return {"x": draw(s_field()), "u": draw(s_drive(["pyfloat", "pyint", "ndarray", "full", "es"])), "u2seed": draw(st.integers(0, 2 ** 31 - 1)),
+    return {"x": draw(s_field()), "u": draw(s_drive(["pyfloat", "pyint", "ndarray", "full", "es", "ripple"])), "u2seed": draw(st.integers(0, 2 ** 31 - 1)),
             "Vpi": draw(st.floats(0.5, 20))}
 
 
@@ -203,11 +213,11 @@ def e_pm(c):
     y = lib(D.PM, x, u_arg, Vpi)
     contract(y, "O", m.npol, N, "PM output")
     rot = np.exp(1j * np.pi * u / Vpi)
-    scale = max(1.0, float(np.max(np.abs(m.s))))
+    scale = max(float(np.max(np.abs(m.s))), 1e-300)
     check(np.allclose(y.signal, m.s * rot, rtol=1e-12, atol=1e-12 * scale), "pm-signal!=rotation", "")
     check((y.noise is None) == (m.n is None), "noise-presence", f"input noise {c['x']['noise_kind']}, output noise {'None' if y.noise is None else 'present'}")
     if m.n is not None:
-        check(np.allclose(y.noise, m.n * rot, rtol=1e-12, atol=1e-12), "pm-noise!=rotation", c["x"]["noise_kind"])
+        check(np.allclose(y.noise, m.n * rot, rtol=1e-12, atol=1e-12 * max(float(np.max(np.abs(m.n))), 1e-300)), "pm-noise!=rotation", c["x"]["noise_kind"])
     tin = m.total
     tout = y.signal if y.noise is None else y.signal + y.noise
     check(np.allclose(np.abs(tout) ** 2, np.abs(tin) ** 2, rtol=1e-9, atol=1e-12 * scale ** 2), "pm-changes-instantaneous-power", "")
